@@ -360,6 +360,9 @@ class ThreadPoolServer(Server):
             self._active_connection_queue.put(None)
         for w in self.workers:
             w.join()
+        # terminate the clients that are still connected
+        for fd in list(self.fd_to_conn):
+            self._drop_connection(fd)
 
     def _remove_from_inactive_connection(self, fd):
         '''removes a connection from the set of inactive ones'''
